@@ -25,7 +25,9 @@ import (
 	"fmt"
 	"hash/fnv"
 	"net"
+	"net/url"
 	"sort"
+	"strconv"
 	"strings"
 
 	"github.com/miekg/dns"
@@ -203,6 +205,28 @@ func Ref(req *dns.Msg) (resp *dns.Msg, mode Mode) {
 		resp.SetEdns0(1232, false)
 		opt := resp.Extra[len(resp.Extra)-1].(*dns.OPT)
 		opt.Option = append(opt.Option, &dns.EDNS0_EDE{InfoCode: dns.ExtendedErrorCodeOther, ExtraText: "ref"})
+	}
+
+	// Like a validating resolver, the answer depends on the DO bit of the query
+	// the handler was given: signatures are added iff DO is set.
+	if opt := req.IsEdns0(); opt != nil && opt.Do() {
+		sig := func(rr dns.RR) dns.RR {
+			hd := rr.Header()
+
+			return &dns.RRSIG{
+				Hdr:         dns.RR_Header{Name: hd.Name, Rrtype: dns.TypeRRSIG, Class: hd.Class, Ttl: hd.Ttl},
+				TypeCovered: hd.Rrtype, Algorithm: 13, Labels: uint8(dns.CountLabel(hd.Name)), OrigTtl: hd.Ttl,
+				Expiration: 2000000000, Inception: 1000000000, KeyTag: uint16(h), SignerName: "test.", Signature: "c2lnbmF0dXJl",
+			}
+		}
+
+		if n := len(resp.Answer); n > 0 {
+			resp.Answer = append(resp.Answer, sig(resp.Answer[n-1]))
+		}
+
+		if n := len(resp.Ns); n > 0 {
+			resp.Ns = append(resp.Ns, sig(resp.Ns[n-1]))
+		}
 	}
 
 	return resp, ModeAnswer
@@ -874,17 +898,197 @@ type JSONReply struct {
 }
 
 // JSONRequest is the DNS query equivalent to a JSON API request, as documented
-// at serverhttpsjson.go: RD set, CD from cd, an OPT with DO iff do.
-func JSONRequest(name string, qt, qc uint16, cd, do bool) *dns.Msg {
+// at serverhttpsjson.go: RD set, CD from cd, an OPT record iff do or sde, with
+// the DO bit iff do and an (empty) EDE option as the structured-errors opt-in
+// iff sde.
+func JSONRequest(name string, qt, qc uint16, cd, do, sde bool) *dns.Msg {
 	m := &dns.Msg{}
 	m.RecursionDesired = true
 	m.CheckingDisabled = cd
 	m.Question = []dns.Question{{Name: dns.Fqdn(name), Qtype: qt, Qclass: qc}}
-	if do {
-		m.SetEdns0(dns.MaxMsgSize, true)
+	if do || sde {
+		m.SetEdns0(dns.MaxMsgSize, do)
+	}
+
+	if sde {
+		opt := m.IsEdns0()
+		opt.Option = append(opt.Option, &dns.EDNS0_EDE{})
 	}
 
 	return m
+}
+
+// JSONQuery is one drawn JSON API request.
+type JSONQuery struct {
+	// Values are the URL parameters (without ct and without decoys).
+	Values url.Values
+	// Invalid is true if a parameter has a value outside the documented ones;
+	// the API then answers with an HTTP error.
+	Invalid     bool
+	Qtype, QC   uint16
+	CD, DO, SDE bool
+	// Req is the equivalent DNS query (nil if Invalid).
+	Req     *dns.Msg
+	Classes []string
+}
+
+// Chooser picks one of n alternatives (a rapid draw, or a hash in the fuzz
+// target).
+type Chooser func(label string, n int) int
+
+// RapidChooser draws through t.
+func RapidChooser(t *rapid.T) Chooser {
+	return func(label string, n int) int { return rapid.IntRange(0, n-1).Draw(t, label) }
+}
+
+// HashChooser derives the choices from seed.
+func HashChooser(seed string) Chooser {
+	return func(label string, n int) int { return int(Hash(seed+"|"+label) % uint32(n)) }
+}
+
+// jsonBool draws one boolean parameter in every spelling the API documents:
+// absent, empty, 0/false/False, 1/true/True.
+func jsonBool(pick Chooser, v url.Values, name string) (val bool) {
+	spell := []struct {
+		s       string
+		present bool
+		val     bool
+	}{{"", false, false}, {"", false, false}, {"", true, false}, {"0", true, false}, {"false", true, false}, {"False", true, false},
+		{"1", true, true}, {"true", true, true}, {"True", true, true}}[pick("json-"+name, 9)]
+	if spell.present {
+		v.Set(name, spell.s)
+	}
+
+	return spell.val
+}
+
+// DrawJSONQuery draws a JSON API request for the question q (whose name must
+// be a plain host name): every documented parameter (name, type, qc, cd, do,
+// sde) independently, in all accepted spellings, and sometimes one invalid
+// value.
+func DrawJSONQuery(pick Chooser, q dns.Question) (j JSONQuery) {
+	v := url.Values{}
+	name := q.Name
+	if name != "." && pick("json-name-dot", 2) == 0 {
+		name = strings.TrimSuffix(name, ".")
+	}
+
+	v.Set("name", name)
+
+	// type: absent or empty (default A), number, mnemonic in any letter case.
+	j.Qtype = q.Qtype
+	mn, hasMn := dns.TypeToString[q.Qtype]
+	hasMn = hasMn && mn == strings.ToUpper(mn)
+	switch m := pick("json-type", 6); {
+	case m == 0:
+		j.Qtype = dns.TypeA
+		j.Classes = append(j.Classes, "json-type-default")
+	case m == 1:
+		j.Qtype = dns.TypeA
+		v.Set("type", "")
+		j.Classes = append(j.Classes, "json-type-default")
+	case m >= 4 && hasMn:
+		if m == 4 {
+			mn = strings.ToLower(mn)
+		}
+
+		v.Set("type", mn)
+		j.Classes = append(j.Classes, "json-type-mnemonic")
+	default:
+		v.Set("type", strconv.Itoa(int(q.Qtype)))
+	}
+
+	j.QC = q.Qclass
+	cmn, hasCmn := dns.ClassToString[q.Qclass]
+	switch m := pick("json-qc", 5); {
+	case m == 0:
+		j.QC = dns.ClassINET
+	case m == 1 && hasCmn:
+		v.Set("qc", strings.ToLower(cmn))
+		j.Classes = append(j.Classes, "json-qc-mnemonic")
+	case m == 2 && hasCmn:
+		v.Set("qc", cmn)
+		j.Classes = append(j.Classes, "json-qc-mnemonic")
+	default:
+		v.Set("qc", strconv.Itoa(int(q.Qclass)))
+	}
+
+	j.CD = jsonBool(pick, v, "cd")
+	j.DO = jsonBool(pick, v, "do")
+	j.SDE = jsonBool(pick, v, "sde")
+	switch {
+	case j.DO && !j.SDE:
+		j.Classes = append(j.Classes, "json-do-only")
+	case j.SDE && !j.DO:
+		j.Classes = append(j.Classes, "json-sde-only")
+	case j.DO && j.SDE:
+		j.Classes = append(j.Classes, "json-do+sde")
+	}
+
+	if j.CD && !j.DO && !j.SDE {
+		j.Classes = append(j.Classes, "json-cd-only")
+	}
+
+	if pick("json-invalid", 8) == 0 {
+		j.Invalid = true
+		j.Classes = append(j.Classes, "json-invalid-param")
+		switch pick("json-invalid-which", 6) {
+		case 0:
+			v.Set("cd", "TRUE")
+		case 1:
+			v.Set("do", "yes")
+		case 2:
+			v.Set("sde", "2")
+		case 3:
+			v.Set("type", "BOGUSTYPE")
+		case 4:
+			v.Set("qc", "65536")
+		case 5:
+			v.Set("name", "")
+		}
+	}
+
+	j.Values = v
+	if !j.Invalid {
+		j.Req = JSONRequest(name, j.Qtype, j.QC, j.CD, j.DO, j.SDE)
+	}
+
+	return j
+}
+
+// CheckJSONReceived compares the query the handler was given for a JSON API
+// request with what the client expressed.
+func CheckJSONReceived(j JSONQuery, got *dns.Msg) error {
+	if got == nil {
+		return fmt.Errorf("the handler was not given any query")
+	}
+
+	if len(got.Question) != 1 || got.Question[0] != j.Req.Question[0] {
+		return fmt.Errorf("the handler was given question %v, the client asked %v", got.Question, j.Req.Question)
+	}
+
+	if got.Response || got.Opcode != dns.OpcodeQuery || !got.RecursionDesired {
+		return fmt.Errorf("the handler was given qr=%t opcode=%d rd=%t", got.Response, got.Opcode, got.RecursionDesired)
+	}
+
+	if got.CheckingDisabled != j.CD {
+		return fmt.Errorf("the handler was given CD=%t, the client sent cd=%t", got.CheckingDisabled, j.CD)
+	}
+
+	opt := got.IsEdns0()
+	if (opt != nil) != (j.DO || j.SDE) {
+		return fmt.Errorf("the handler was given an OPT record: %t; the client sent do=%t sde=%t", opt != nil, j.DO, j.SDE)
+	}
+
+	if opt != nil && opt.Do() != j.DO {
+		return fmt.Errorf("the handler was given DO=%t, the client sent do=%t (sde=%t)", opt.Do(), j.DO, j.SDE)
+	}
+
+	if hasOption(opt, dns.EDNS0EDE) != j.SDE {
+		return fmt.Errorf("the handler was given the structured-errors opt-in: %t; the client sent sde=%t (do=%t)", hasOption(opt, dns.EDNS0EDE), j.SDE, j.DO)
+	}
+
+	return nil
 }
 
 func jsonRRs(rrs []dns.RR) (out []string) {
@@ -1178,7 +1382,7 @@ func DrawQuery(t *rapid.T) *dns.Msg {
 // the server must distinguish (or in nothing but the ID).
 func DrawNearMiss(t *rapid.T, base *dns.Msg) (m *dns.Msg, what string) {
 	m = base.Copy()
-	what = rapid.SampledFrom([]string{"case", "case", "qtype", "qclass", "label", "kind", "id-only", "same-id-qtype", "rd", "cd", "edns", "do", "verbatim"}).Draw(t, "nearMiss")
+	what = rapid.SampledFrom([]string{"case", "case", "qtype", "qclass", "label", "kind", "id-only", "same-id-qtype", "rd", "cd", "edns", "do", "verbatim", "grow", "grow"}).Draw(t, "nearMiss")
 	q := &m.Question[0]
 	if what != "same-id-qtype" && what != "verbatim" {
 		m.Id = base.Id + uint16(rapid.SampledFrom([]int{1, 256, 65535}).Draw(t, "idDelta"))
@@ -1232,6 +1436,16 @@ func DrawNearMiss(t *rapid.T, base *dns.Msg) (m *dns.Msg, what string) {
 		// answer, ...).
 		k := rapid.IntRange(0, int(NKinds)-1).Draw(t, "otherKind")
 		q.Name = fmt.Sprintf("k%d.near.test.", k)
+	case "grow":
+		// The same question in a query beyond the initial capacity (512) of the
+		// pooled TCP buffers, after / before shorter ones.
+		opt := m.IsEdns0()
+		if opt == nil {
+			m.SetEdns0(4096, false)
+			opt = m.IsEdns0()
+		}
+
+		opt.Option = append(opt.Option, &dns.EDNS0_LOCAL{Code: 65002, Data: make([]byte, rapid.SampledFrom([]int{513, 600, 1500}).Draw(t, "growBy"))})
 	case "rd":
 		m.RecursionDesired = !m.RecursionDesired
 	case "cd":
